@@ -6,7 +6,7 @@ from vlib import coqrun
 from vlib.common import COQ
 
 STATIC = ["C14S/PyList.v", "C14S/StackSpec.v", "C14S/StackSpecProofs.v", "C14S/Spill.v", "C14S/SpillProofs.v", "C14S/SpillInv.v",
-          "C14S/ReorderProofs.v", "C14S/ReorderFull.v", "C14S/CallProofs.v", "C14S/Script.v"]
+          "C14S/ReorderProofs.v", "C14S/ReorderFull.v", "C14S/CallProofs.v", "C14S/FrameProofs.v", "C14S/Script.v"]
 PER_RUN = ["C14S/GenStackModel.v", "C14S/TieStackModel.v", "C14S/PropsStack.v"]
 IMPORTS = "From Verif Require Import Base.PyInt C14S.PyList C14S.StackSpec C14S.Spill C14S.Script.\n"
 NEXT0 = 4096
@@ -268,6 +268,14 @@ class Real:
                 sp.restore_spilled_operand(asm, stack, spilled, ids.op(c[1]))
             elif k == "release":
                 sp.release_dead_spills(spilled, OrderedSet(ids.op(i) for i in c[1]))
+            elif k == "startfn":
+                # what generate_evm_assembly does before every function (the spilled dict of a function starts empty)
+                self.n_fn = getattr(self, "n_fn", 0) + 1
+                fns = [sp.ctx.create_function(f"sf{self.n_fn}_{i}") for i in range(len(c[1]))]
+                sp.ctx.mem_allocator.fn_eom = dict(zip(fns, c[1]))
+                sp.set_current_function(fns[c[2]])
+                sp.reset_spill_slots()
+                spilled.clear()
             elif k == "reorder":
                 scratch = [] if c[1] else asm
                 self.costs.append(vc._stack_reorder(scratch, stack, [ids.op(i) for i in c[2]], spilled, dry_run=c[1]))
@@ -345,7 +353,7 @@ def coq_cmd(c):
     z = lambda x: str(x) if x >= 0 else f"({x})"  # noqa
     k = c[0]
     return {"swap": lambda: f"CSwap {z(c[1])}", "dup": lambda: f"CDup {z(c[1])}", "spill": lambda: f"CSpill {z(c[1])}",
-            "restore": lambda: f"CRestore {c[1]}", "release": lambda: f"CRelease {zl(c[1])}",
+            "restore": lambda: f"CRestore {c[1]}", "release": lambda: f"CRelease {zl(c[1])}", "startfn": lambda: f"CStartFn {zl(c[1])}",
             "reorder": lambda: f"CReorder {'true' if c[1] else 'false'} {zl(c[2])}", "pop": lambda: f"CPop {z(c[1])}",
             "push": lambda: f"CPush {c[1]}", "pushvar": lambda: f"CPush {c[1]}", "emit": lambda: f"CEmit {'true' if c[1] else 'false'} {zl(c[2])} {zl(c[3])}",
             "popmany": lambda: f"CPopMany {zl(c[1])}",
@@ -375,7 +383,11 @@ def gen_scenario(rnd, ids, big):
         sp_keys = [ids.id_of(o) for o in real.spilled]
         r = rnd.random()
         wild = rnd.random() < 0.06
-        if r < 0.18 and (height >= 2 or wild):
+        if rnd.random() < 0.05:
+            # next function of the context: set_current_function + reset_spill_slots (static frame ends below / above the peak)
+            eoms = [rnd.choice([0, 32, 64, 640, NEXT0 - 32, NEXT0, NEXT0 + 64, NEXT0 + 320, 2 * NEXT0]) for _ in range(rnd.randrange(1, 5))]
+            c = ("startfn", eoms, rnd.randrange(len(eoms)))
+        elif r < 0.18 and (height >= 2 or wild):
             c = ("swap", -rnd.randrange(0, height + (3 if wild else 0)))
         elif r < 0.34 and (height >= 1 or wild):
             c = ("dup", -rnd.randrange(0, height + (3 if wild else 0)) if height or wild else 0)
